@@ -62,15 +62,24 @@ func loadFindings() []Finding {
 func runJob(j Job, known []string, scratch string, idx int, mut string) jobResult {
 	t0 := time.Now()
 	out := filepath.Join(scratch, fmt.Sprintf("job%d.json", idx))
-	args := []string{"-q", "-dir", modDir, "-h", j.H, "-K", strconv.Itoa(j.K), "-U", strconv.Itoa(j.U), "-json", out}
+	args := []string{"-q", "-hints", filepath.Join(modDir, "hints"), "-dir", modDir, "-h", j.H, "-K", strconv.Itoa(j.K), "-U", strconv.Itoa(j.U), "-json", out}
 	if j.MapCap > 0 {
 		args = append(args, "-mapcap", strconv.Itoa(j.MapCap))
+	}
+	if j.AppendCap > 0 {
+		args = append(args, "-appendcap", strconv.Itoa(j.AppendCap))
 	}
 	if j.Prune {
 		args = append(args, "-prune")
 	}
 	if j.Race {
 		args = append(args, "-race")
+	}
+	if j.Spin {
+		args = append(args, "-spin")
+	}
+	if j.Preempt > 0 {
+		args = append(args, "-preempt", strconv.Itoa(j.Preempt))
 	}
 	if j.Only != "" {
 		args = append(args, "-only", j.Only)
@@ -95,6 +104,9 @@ func runJob(j Job, known []string, scratch string, idx int, mut string) jobResul
 	}
 	if mut != "" {
 		args = append(args, "-mut", mut)
+	}
+	if os.Getenv("VERIF_WRITE_HINTS") != "" {
+		args = append(args, "-writehints")
 	}
 	to := j.TimeoutSec
 	if to == 0 {
